@@ -12,7 +12,7 @@
    The correspondence run evaluates key_move_b (it must be true) on every legal move it generates; that every legal move
    of every position of D passes it is not proved. *)
 From Coq Require Import NArith ZArith List Bool.
-From Rawr Require Import Consts Bits Magic Position MoveGen MakeMove MakeStages Rules Abs KeySpec KeyFacts HashFacts KeyAbs KeyMove GenSane Closure ClosureNull EpRetro GenLegal.
+From Rawr Require Import Consts Bits Magic Position MoveGen MakeMove MakeStages Rules Abs KeySpec KeyFacts HashFacts KeyAbs KeyMove GenSane Closure ClosureNull EpRetro GenLegal Uci SessionInv SessionKeys.
 Import ListNotations.
 Local Open Scope N_scope.
 
@@ -87,6 +87,13 @@ Theorem C04_key_invariant_along_every_sequence_of_generated_moves : forall ms p,
   hash q = calculate_hash q /\ calculate_hash q = KeySpec.spec_key (abs_state q).
 Proof. exact gen_run_keys. Qed.
 
+(* at the level of the command loop: in every state reached along any script (position lines within D) the stored key is the
+   recomputed key and the specification's key of the abstract position *)
+Theorem C04_key_invariant_in_every_session_state : forall mode lines s s',
+  SessInv s -> script_dom mode s lines -> Reached mode s lines s' ->
+  hash (u_pos s') = calculate_hash (u_pos s') /\ calculate_hash (u_pos s') = KeySpec.spec_key (abs_state (u_pos s')).
+Proof. exact session_keys. Qed.
+
 Print Assumptions C04_key_min_distance.
 Print Assumptions C04_makenull_hash.
 Print Assumptions C04_key_table_size.
@@ -98,3 +105,4 @@ Print Assumptions C04_every_generated_move_keeps_the_key.
 Print Assumptions C04_key_invariant_along_every_sequence.
 Print Assumptions C04_key_invariant_along_moves_and_null_moves.
 Print Assumptions C04_key_invariant_along_every_sequence_of_generated_moves.
+Print Assumptions C04_key_invariant_in_every_session_state.
